@@ -786,7 +786,10 @@ class PDFDocument:
             # If there's an encryption info, remember it.
             if "Encrypt" in trailer:
                 if "ID" in trailer:
-                    id_value = list_value(trailer["ID"])
+                    id_value = [resolve1(v) for v in list_value(trailer["ID"])]
+                    if not id_value or not isinstance(id_value[0], bytes):
+                        # An empty or ill-typed /ID is treated as a missing one.
+                        id_value = (b"", b"")
                 else:
                     # Some documents may not have a /ID, use two empty
                     # byte strings instead. Solves
